@@ -249,6 +249,43 @@ def r3_fast_path(repo: Repo, rep):
             rep.check(R, dump(p.ret) == f"linear.apply({f.params[1]}, self.weight, self.bias)", f.site(), f.fq, "TrunkLinear applies the Function to (input, weight, bias)", dump(p.ret), dump(p.ret))
 
 
+def r10_network_calls_keep_their_graph(repo: Repo, rep):
+    R = rep.rule("R-C09-10", "no method of the DeepONet parts evaluates a network (self(..), self.forward, a sub-network of self) with gradient recording switched off "
+                 "(torch.no_grad / inference_mode / set_grad_enabled(False), as a block or a decorator)", floor=15,
+                 why="a branch output fixed under no_grad is a constant: the branch parameters receive no gradient when the fixed input is trained on - the parameter gradients differ from the plain network's")
+
+    def off(e):
+        if isinstance(e, ast.Call):
+            ch = attr_chain(e.func) or ""
+            if ch.endswith(("no_grad", "inference_mode")):
+                return not (e.args and isinstance(e.args[0], ast.Constant) and e.args[0].value is False)
+            if ch.endswith(("set_grad_enabled", "enable_grad")) and e.args:
+                return ch.endswith("set_grad_enabled") and isinstance(e.args[0], ast.Constant) and e.args[0].value is False
+        return isinstance(e, ast.Attribute) and e.attr in ("no_grad", "inference_mode")
+
+    def net_calls(node):
+        out = []
+        for c in ast.walk(node):
+            if isinstance(c, ast.Call):
+                t = dump(c.func)
+                if t == "self" or t.startswith("self.") and not t.startswith(("self._", "self.register", "self.to", "self.parameters")) and (t.endswith(".forward") or t.count(".") == 1):
+                    out.append(c)
+        return out
+    for fi in repo.all_functions():
+        if ".models.deeponet." not in fi.module.name and not fi.module.name.endswith(".models.deeponet"):
+            continue
+        if fi.cls is None:
+            continue
+        rep.saw(fi)
+        bad = []
+        if any(off(d) for d in fi.node.decorator_list) and net_calls(fi.node):
+            bad.append("decorated")
+        for n in ast.walk(fi.node):
+            if isinstance(n, ast.With) and any(off(i.context_expr) for i in n.items):
+                bad += [dump(c)[:40] for b in n.body for c in net_calls(b)]
+        rep.check(R, not bad, fi.site(), fi.fq, "networks are evaluated with gradient recording on", f"without recording: {bad[:3]}", f"{bad[:3]}")
+
+
 def r4_branch_cache(repo: Repo, rep):
     R = rep.rule("R-C09-4", "branch cache protocol: current_out is written by branch forwards only; every way of fixing the branch input ends in the branch call on Points of "
                  "input_space.output_space; function sets sample their parameters before being discretised; _forward_branch recomputes iff the iteration number changed",
@@ -636,6 +673,7 @@ def r9_collection_batch(repo: Repo, rep):
 
 
 def run(repo: Repo, rep):
+    r10_network_calls_keep_their_graph(repo, rep)
     r8_no_inplace_state(repo, rep)
     r9_collection_batch(repo, rep)
     from .generic import g_arg_constructor_parameters
